@@ -43,13 +43,25 @@ var (
 		AbbreviatedKey:     compare.AbbreviatedKeyDisableSlash,
 		FormatKey:          pebble.DefaultComparer.FormatKey,
 		FormatValue:        pebble.DefaultComparer.FormatValue,
-		Separator:          pebble.DefaultComparer.Separator,
+		Separator:          slashSpanSeparator,
 		Split:              pebble.DefaultComparer.Split,
-		Successor:          pebble.DefaultComparer.Successor,
+		Successor:          slashSpanSuccessor,
 		ImmediateSuccessor: pebble.DefaultComparer.ImmediateSuccessor,
 		Name:               "oxia-slash-spans",
 	}
 )
+
+// The default (byte-wise) separator and successor are not valid for the slash-spans ordering:
+// e.g. the byte-wise separator between "a." and "a1" is "a/", which sorts after every key
+// without slashes, so index blocks would point lookups at the wrong data block.
+// Returning the key itself is always a valid (if not the shortest) choice.
+func slashSpanSeparator(dst, a, _ []byte) []byte {
+	return append(dst, a...)
+}
+
+func slashSpanSuccessor(dst, a []byte) []byte {
+	return append(dst, a...)
+}
 
 type PebbleFactory struct {
 	dataDir string
